@@ -19,6 +19,6 @@ CONSTANTS
   OvfFirstInOpen = TRUE
   RecordHist = FALSE
 INVARIANTS
-  Agrees NonceIsXor AcceptsOnlySealed CtLen
+  Agrees TraceStateProps
 ACTION_CONSTRAINT CheckLast
 CHECK_DEADLOCK FALSE
